@@ -185,6 +185,12 @@ pub fn oracle_c14(p: &SetSpeedTrainSim, s: &SetSpeedTrainSim, so: &StepOut, chec
     let res_net = s.state.res_rolling.value + s.state.res_bearing.value + s.state.res_davis_b.value + s.state.res_aero.value + s.state.res_grade.value + s.state.res_curve.value;
     let raw = m / (2.0 * dt) * (v1 * v1 - v0 * v0) + res_net * 0.5 * (v0 + v1);
     let con = &s.loco_con.state;
+    // "its dynamic-braking capability": what the units' electric drivetrains can absorb, derived from the locomotives
+    // (a consist with a dummy unit publishes an effectively unlimited capability and is not judged here)
+    let cap: Option<f64> = s.loco_con.loco_vec.iter().map(|l| l.electric_drivetrain().map(|e| e.pwr_out_max.value)).sum();
+    if let Some(cap) = cap {
+        t(close_tol(con.pwr_dyn_brake_max.value, cap, 1e-12, 1e-6), "published-dynamic-braking-capability-not-sum-of-drivetrain-ratings@Consist::set_pwr_dyn_brake_max", format!("published {} W, sum of the units' drivetrain ratings {} W", con.pwr_dyn_brake_max.value, cap));
+    }
     let lo = -con.pwr_dyn_brake_max.value.max(0.0);
     // upper clip: published traction limit, and the published rate over the step (the code integrates the rate over
     // the previous step's dt; both readings are accepted, see DESIGN C14 watch item)
